@@ -373,7 +373,7 @@ def unimodular(rng, d, ops):
 
 PARAM_NAMES = ["a", "b", "c"]
 GENERIC_VALUES = [F(7, 3), F(-5, 3), F(11, 4), F(13, 5), F(-7, 2), F(9, 7), F(17, 6), F(-11, 5), F(19, 8), F(23, 9),
-                  F(-13, 6), F(29, 10), F(31, 12), F(-17, 7)]
+                  F(-13, 6), F(29, 10), F(31, 12), F(-17, 7), F(37, 11), F(-19, 9), F(41, 13), F(-23, 10), F(43, 14), F(47, 15)]
 
 PROFILES_QUICK = ["nilchain", "nilchain", "jordan", "jordan", "companion", "companion", "scrambled", "scrambled",
                   "scrambled_nil", "parametric", "parametric", "syminit", "options", "options", "options"]
@@ -618,8 +618,10 @@ def generate_system(cs, tier="quick", profile=None):
     names = sorted(set(params) | set(init_syms))
     instances = []
     if names:
-        for _ in range(2):
-            vals = rng.sample(GENERIC_VALUES, len(names))
+        pool = list(GENERIC_VALUES)
+        rng.shuffle(pool)
+        for t in range(2):   # two disjoint generic instantiations
+            vals = pool[t * len(names):(t + 1) * len(names)]
             instances.append({nm: fstr(x) for nm, x in zip(names, vals)})
     else:
         instances.append({})
